@@ -113,8 +113,12 @@ Proof.
   intros text lvl es. induction lvl as [|lvl IHl]; intros value t ld; cbn [norm_attr_lvl].
   - epos_tac.
   - apply epos_bind; [eauto with epos|]. intros s0. cbv beta.
-    generalize (S (length (s_rest s0))). intros n. revert s0 t ld.
-    induction n as [|n IHn]; intros s t ld; fix_step; epos_tac.
+    (* [cbn] has already unfolded the first iteration of the inner loop; first the loop at
+       any fuel, then the unfolded iteration *)
+    match goal with |- context [?F (length (s_rest s0))] =>
+      assert (L : forall n s t ld, epos text (F n s t ld)) end.
+    { induction n as [|n IHn]; intros s t' ld'; fix_step; epos_tac. }
+    epos_tac.
 Qed.
 #[export] Hint Resolve norm_attr_lvl_epos : epos.
 
@@ -143,8 +147,12 @@ Proof.
   destruct (negb (existsb (fun x => (x =? 38) || (x =? 13)) (slice_bytes text t))); [epos_tac|].
   apply epos_bind; [eauto with epos|]. intros s0. cbv beta.
   apply epos_bind; [|intros; epos_tac].
-  generalize (S (length (s_rest s0))). intros n. generalize tb_new. revert s0 c.
-  induction n as [|n IHn]; intros s c buf; fix_step; epos_tac.
+  (* [unfold] has already unfolded the first iteration of the loop: first the loop at any
+     fuel, then the unfolded iteration *)
+  match goal with |- context [?F (length (s_rest s0))] =>
+    assert (L : forall n s buf c, epos text (F n s buf c)) end.
+  { induction n as [|n IHn]; intros s buf c'; fix_step; epos_tac. }
+  epos_tac.
 Qed.
 
 (* the mutual recursion parse_content -> token -> process_text -> parse_content *)
